@@ -516,6 +516,12 @@ func (g *gen) iface(name string, shared *embed, extra []string) (string, Iface) 
 		fmt.Fprintf(&b, "\t%s\n", []string{"Batch(items LocalList, idx LocalMap) LocalList", "Batch(idx LocalMap, more ...LocalList) (LocalMap, error)", "Batch(_ LocalList, n int)"}[st.Int(3)])
 		out.Methods++
 	}
+	if st := tape.New(tape.MixS(g.side, "result-named-like-type:"+name)); st.Int(5) == 0 && !taken["Split"] {
+		// results named like a type that a later result of the same method uses
+		// (legal: result names are scoped to the body), and a single func() result
+		fmt.Fprintf(&b, "\t%s\n", []string{"Split(key string) (Local *Local, rest *Local, err error)", "Split(n int) (LocalID LocalID, next LocalID)", "Split(topic string) func()"}[st.Int(3)])
+		out.Methods++
+	}
 	if st := tape.New(tape.MixS(g.side, "self-ref:"+name)); len(g.tparams) == 0 && !taken["Chain"] {
 		// builder-style methods: the interface itself as the only result, or among
 		// the parameters and results
